@@ -193,7 +193,13 @@ func c14Composite(w *World, prop string, relatedOnly bool) {
 						if c != nil && managed(po) {
 							switch ev {
 							case "child-edit":
-								EditObject(w, k0, mstr(c, "namespace"), mstr(c, "name"), "user", func(o Object) { setPath(o, fmt.Sprint(w.step), childContentField(k0), "foreign") })
+								otherVersion := w.T.Pick(3, "owner-ref-other-version") == 2
+								EditObject(w, k0, mstr(c, "namespace"), mstr(c, "name"), "user", func(o Object) {
+									setPath(o, fmt.Sprint(w.step), childContentField(k0), "foreign")
+									if otherVersion {
+										ownerRefToOtherVersion(w, o, mstr(po, "uid"))
+									}
+								})
 							case "child-status":
 								EditStatus(w, k0, mstr(c, "namespace"), mstr(c, "name"), "status", func(o Object) { setPath(o, fmt.Sprint(w.step), "status", "phase") })
 							case "child-delete":
@@ -520,7 +526,13 @@ func c14Decorator(w *World) {
 							continue
 						}
 						if name == "attachment-edit" {
-							EditObject(w, ares, mstr(a, "namespace"), mstr(a, "name"), "user", func(o Object) { setPath(o, fmt.Sprint(w.step), childContentField(ares), "foreign") })
+							otherVersion := w.T.Pick(3, "owner-ref-other-version") == 2
+							EditObject(w, ares, mstr(a, "namespace"), mstr(a, "name"), "user", func(o Object) {
+								setPath(o, fmt.Sprint(w.step), childContentField(ares), "foreign")
+								if otherVersion {
+									ownerRefToOtherVersion(w, o, mstr(po, "uid"))
+								}
+							})
 						} else {
 							w.Store.Delete(ares, mstr(a, "namespace"), mstr(a, "name"), DeleteOpts{}, "user")
 						}
@@ -589,4 +601,24 @@ func c14Decorator(w *World) {
 			}})
 	}
 	w.Stages = stages
+}
+
+// ownerRefToOtherVersion rewrites the apiVersion of the owner reference with this UID to
+// another version of the same group (the reference was written by a client that uses
+// another served version of the parent's API): kind, name and UID still name the parent,
+// and those are what an owner reference resolves by.
+func ownerRefToOtherVersion(w *World, o Object, uid string) {
+	for _, r := range getList(o, "metadata", "ownerReferences") {
+		ref, _ := r.(map[string]interface{})
+		if ref == nil || getStr(ref, "uid") != uid {
+			continue
+		}
+		av := getStr(ref, "apiVersion")
+		group := ""
+		if i := strings.Index(av, "/"); i >= 0 {
+			group = av[:i+1]
+		}
+		ref["apiVersion"] = group + "v1beta1"
+		w.Probe("c14:owner-reference-names-another-version")
+	}
 }
